@@ -1,5 +1,52 @@
-(* C15 - statements only. (grows) *)
-From Sbdf Require Import Base BaseFacts.
-Theorem C15_cmp_zero_iff_equal : forall a b, lex_cmp a b = 0 <-> a = b.
+(* C15 — equality and ordering helpers agree with content.  Statements only; proofs in EqFacts.v
+   and BaseFacts.v.  Strings and byte arrays are modelled as the list of their bytes (embedded NULs
+   included; the terminating NUL of a string is implicit), so create/copy are the identity on the
+   content: that part of the property is tied by the correspondence run (strrt/bart observations). *)
+From Sbdf Require Import Obj BaseFacts VaFacts EqFacts.
+
+Theorem C15_obj_eq_iff_equal : forall a b, obj_wf a -> obj_wf b -> (obj_eq a b = 1 <-> a = b).
+Proof. exact obj_eq_iff. Qed.
+Print Assumptions C15_obj_eq_iff_equal.
+
+Theorem C15_obj_eq_equivalence :
+  (forall a, obj_wf a -> obj_eq a a = 1) /\
+  (forall a b, obj_wf a -> obj_wf b -> obj_eq a b = 1 -> obj_eq b a = 1) /\
+  (forall a b c, obj_wf a -> obj_wf b -> obj_wf c -> obj_eq a b = 1 -> obj_eq b c = 1 -> obj_eq a c = 1).
+Proof. exact obj_eq_equivalence. Qed.
+Print Assumptions C15_obj_eq_equivalence.
+
+Theorem C15_obj_eq_boolean : forall a b, obj_wf a -> obj_eq a b = 0 \/ obj_eq a b = 1.
+Proof. exact obj_eq_boolean. Qed.
+Print Assumptions C15_obj_eq_boolean.
+
+Theorem C15_copy_equal : forall o, obj_ok o -> obj_wf o -> exists c, obj_copy o = Ok c /\ obj_eq o c = 1.
+Proof. exact obj_copy_equal. Qed.
+Print Assumptions C15_copy_equal.
+
+(* string / byte-array comparison: lexicographic byte order, a proper prefix first, antisymmetric,
+   transitive, zero only for identical content *)
+Theorem C15_cmp_zero_iff_equal : forall a b, str_cmp a b = 0 <-> a = b.
 Proof. exact lex_cmp_eq. Qed.
 Print Assumptions C15_cmp_zero_iff_equal.
+
+Theorem C15_cmp_antisymmetric : forall a b, str_cmp b a = - str_cmp a b.
+Proof. exact lex_cmp_antisym. Qed.
+Print Assumptions C15_cmp_antisymmetric.
+
+Theorem C15_cmp_prefix_first : forall a b, b <> [] -> str_cmp a (a ++ b) = -1.
+Proof. exact lex_cmp_prefix. Qed.
+Print Assumptions C15_cmp_prefix_first.
+
+Theorem C15_cmp_transitive : forall a b c, str_cmp a b = -1 -> str_cmp b c = -1 -> str_cmp a c = -1.
+Proof. exact lex_cmp_trans_lt. Qed.
+Print Assumptions C15_cmp_transitive.
+
+Theorem C15_cmp_sign : forall a b, str_cmp a b = -1 \/ str_cmp a b = 0 \/ str_cmp a b = 1.
+Proof. exact lex_cmp_range. Qed.
+Print Assumptions C15_cmp_sign.
+
+Example C15_nonvacuous :
+  obj_wf {| oty := SBDF_STRINGTYPEID; oelems := [[97; 98; 99]] |} /\
+  obj_eq {| oty := SBDF_STRINGTYPEID; oelems := [[97; 98; 99]] |} {| oty := SBDF_STRINGTYPEID; oelems := [[97; 98; 100]] |} = 0 /\
+  str_cmp [0; 128] [0; 127] = 1.
+Proof. split; [left; reflexivity|split; reflexivity]. Qed.
